@@ -38,10 +38,15 @@ try:
         FileStoragePacker.copyToPacktime = orig
     c.sync(); print(outcome, '| a.v =', r['a']['v'], '| asserts', 'on' if __debug__ else 'OFF')
     db.close()
+    ok = False
     try:
+        os.remove(p + '.index')
         fs = FileStorage(p); n = len(list(fs.iterator())); v = ZODB.DB(fs).open().root()['a']['v']
         print('reopen: %d transactions, a.v = %r' % (n, v)); fs.close()
+        ok = v == 1
     except Exception as e:
         print('reopen FAILED: %s: %s' % (type(e).__name__, e))
+    print('OK' if ok else 'C08 defect: the pack installed a damaged file')
 finally:
     shutil.rmtree(d)
+sys.exit(0 if ok else 1)
